@@ -12,6 +12,18 @@ TraceInit == /\ tid \in 1..NTraces /\ l = 1
              /\ IF Hdr(tid).mod = 0          \* modulo 0: only the constructor is exercised
                 THEN val = 0 /\ mod = 0 /\ initv = 0 /\ ret = C!Failed
                 ELSE C!InitFrom(Hdr(tid).mod, Hdr(tid).init, Hdr(tid).restored, Hdr(tid).has_restored)
+(* Amounts and values beyond TLC's 32-bit integers (and beyond the 53 bits a float holds     *)
+(* exactly) are recorded as digits in base 2^15, most significant first, plus a sign; the  *)
+(* reduction modulo M <= 2^15 is computed digit by digit (Horner), which is exact:         *)
+(* (val + a) mod M = (val + (a mod M)) mod M.                                              *)
+DigitBase == 32768
+RECURSIVE HornerMod(_, _, _)
+HornerMod(ds, m, acc) == IF ds = <<>> THEN acc ELSE HornerMod(Tail(ds), m, (acc * DigitBase + Head(ds)) % m)
+BigRed(ds, neg, m) == LET r == HornerMod(ds, m, 0) IN IF neg THEN (m - r) % m ELSE r
+BigOk == mod > 0 /\ mod <= DigitBase
+IncBig(e) == BigOk /\ val' = (val + BigRed(e.digits, e.neg, mod)) % mod /\ UNCHANGED <<mod, initv>>
+DecBig(e) == BigOk /\ val' = (val + mod - BigRed(e.digits, e.neg, mod)) % mod /\ UNCHANGED <<mod, initv>>
+PutBig(e) == BigOk /\ val' = BigRed(e.digits, e.neg, mod) /\ UNCHANGED <<mod, initv>>
 (* the first line of every trace is the observation after start-up *)
 Observed(e) == /\ val' = e.out
                /\ ret' = [ok |-> e.ok, v |-> e.ret]
@@ -23,6 +35,9 @@ Step == /\ l <= Len(Ev(tid))
                 \/ e.ev = "dec"   /\ C!Dec(e.a)   /\ Observed(e)
                 \/ e.ev = "put"   /\ C!Put(e.a)   /\ Observed(e)
                 \/ e.ev = "reset" /\ C!Reset      /\ Observed(e)
+                \/ e.ev = "inc_big" /\ IncBig(e) /\ Observed(e)
+                \/ e.ev = "dec_big" /\ DecBig(e) /\ Observed(e)
+                \/ e.ev = "put_big" /\ PutBig(e) /\ Observed(e)
                 \/ e.ev = "putmissing" /\ C!PutMissing /\ Observed(e)
                 \/ e.ev = "construct0" /\ ~C!ValidConfig(mod) /\ e.refused /\ UNCHANGED vars
         /\ l' = l + 1 /\ UNCHANGED tid
